@@ -259,6 +259,9 @@ def parse_cbmc(jout, res):
         cls = prop.split(".")[-2] if "." in prop else ""
         desc = r.get("description", "")
         st = r["status"]
+        if st not in ("SUCCESS", "FAILURE"):
+            res.setdefault("errors", []).append("%s: %s" % (prop, st))
+            continue
         if cls == "cover":
             covers.append({"desc": desc, "satisfied": st == "FAILURE",
                            "witness": extract_witness(r.get("trace")) if st == "FAILURE" else None})
@@ -274,7 +277,10 @@ def parse_cbmc(jout, res):
     res["covers"] = covers
     res["failed"] = failed
     res["unwind_fail"] = unwind_fail
-    if unwind_fail:
+    if res.get("errors"):
+        res["status"] = "undecided"
+        res["reason"] = "solver returned no verdict for %d properties (%s)" % (len(res["errors"]), res["errors"][0][:120])
+    elif unwind_fail:
         res["status"] = "undecided"
         res["reason"] = "unwinding assertion failed (bound too small): " + "; ".join(unwind_fail[:3])
     elif failed:
